@@ -19,8 +19,15 @@
 (* An array is [sh |-> shape, v |-> flat C-order sequence of scalars].     *)
 (* A program is a sequence of nodes                                        *)
 (*   [op |-> name, d |-> operand positions, p |-> integer parameters,      *)
-(*    sh |-> static shape, dt |-> "b" | "i" | "f"]                         *)
-(* in post order (operands precede users).                                 *)
+(*    sh |-> static shape, dt |-> "b" | "i" | "f" | "c"]                   *)
+(* in post order (operands precede users).  A negative entry -k of sh is a  *)
+(* loop dependent axis length: the value of the scalar integer node k      *)
+(* (the evaluator takes shapes from the operand arrays, so sh matters to   *)
+(* the typed builder and the harness only).  Elements of a node with       *)
+(* dt = "c" are complex scalars: pairs <<re, im>> of dual numbers (the     *)
+(* tangent pair is the entrywise derivative of real and imaginary part).   *)
+(* Structural operations are polymorphic in the element kind except for    *)
+(* the fill values (zero / undefined), which are chosen by the node's dt.  *)
 (***************************************************************************)
 EXTENDS Integers, Sequences, FiniteSets, TLC
 
@@ -112,6 +119,40 @@ DNot(x) == IF DIsBad(x) THEN DBad ELSE <<IF x[1] = RZero THEN ROne ELSE RZero, R
 DOr(x, y) == IF DIsBad(x) \/ DIsBad(y) THEN DBad ELSE <<IF x[1] = RZero /\ y[1] = RZero THEN RZero ELSE ROne, RZero>>
 DAnd(x, y) == IF DIsBad(x) \/ DIsBad(y) THEN DBad ELSE <<IF x[1] = RZero \/ y[1] = RZero THEN RZero ELSE ROne, RZero>>
 
+\* ------------------------------------------------------------------ complex scalars
+\* <<re, im>> of dual numbers; undefined iff either part is undefined (then both are).  Prefix Z: NumpySem owns C*.
+ZBad == <<DBad, DBad>>
+ZZero == <<DZero, DZero>>
+ZOne == <<DOne, DZero>>
+ZIsBad(z) == DIsBad(z[1]) \/ DIsBad(z[2])
+ZMk(re, im) == IF DIsBad(re) \/ DIsBad(im) THEN ZBad ELSE <<re, im>>
+ZOfD(x) == ZMk(x, DZero)                                   \* FloatToComplex
+ZRe(z) == IF ZIsBad(z) THEN DBad ELSE z[1]
+ZIm(z) == IF ZIsBad(z) THEN DBad ELSE z[2]
+ZAdd(x, y) == ZMk(DAdd(x[1], y[1]), DAdd(x[2], y[2]))
+ZNeg(x) == ZMk(DNeg(x[1]), DNeg(x[2]))
+ZSub(x, y) == ZAdd(x, ZNeg(y))
+ZMul(x, y) == ZMk(DSub(DMul(x[1], y[1]), DMul(x[2], y[2])), DAdd(DMul(x[1], y[2]), DMul(x[2], y[1])))
+ZConj(x) == ZMk(x[1], DNeg(x[2]))
+ZNorm2(x) == DAdd(DMul(x[1], x[1]), DMul(x[2], x[2]))      \* |z|^2, a dual number
+ZInv(x) == LET q == DInv(ZNorm2(x)) IN ZMk(DMul(x[1], q), DNeg(DMul(x[2], q)))   \* conj(z) / |z|^2
+RECURSIVE ZPowNat(_, _)
+ZPowNat(x, k) == IF k = 0 THEN ZOne ELSE ZMul(x, ZPowNat(x, k - 1))
+ZPowInt(x, k) == IF k >= 0 THEN (IF k > 12 THEN ZBad ELSE ZPowNat(x, k)) ELSE (IF -k > 12 THEN ZBad ELSE ZInv(ZPowNat(x, -k)))
+ZNoTan(z) == IF ZIsBad(z) THEN ZBad ELSE <<<<z[1][1], Bad>>, <<z[2][1], Bad>>>>
+\* z^w is modelled for integer-valued w only (w = k + 0i): repeated multiplication, tangent by the product rule;
+\* a varying exponent needs the complex logarithm (branch cut): tangent undefined
+ZPow(x, y) == IF ZIsBad(x) \/ ZIsBad(y) THEN ZBad
+              ELSE IF y[2][1] # RZero \/ ~RIsInt(y[1][1]) THEN ZBad
+              ELSE LET r == ZPowInt(x, y[1][1][1]) IN
+                   IF y[1][2] # RZero \/ y[2][2] # RZero THEN ZNoTan(r) ELSE r
+ZPowVar(x, y) == ZNoTan(ZPow(x, y))
+\* |z| where exact (|z|^2 a perfect rational square), else undefined; tangent (re re' + im im') / |z|, undefined at 0
+ZAbs(x) == IF ZIsBad(x) THEN DBad ELSE DPow(ZNorm2(x), <<<<1, 2>>, RZero>>)
+ZEq(x, y) == IF ZIsBad(x) \/ ZIsBad(y) THEN DBad
+             ELSE LET eq == x[1][1] = y[1][1] /\ x[2][1] = y[2][1]
+                  IN <<IF eq THEN ROne ELSE RZero, IF eq /\ (x[1][2] # y[1][2] \/ x[2][2] # y[2][2]) THEN Bad ELSE RZero>>
+
 \* ------------------------------------------------------------------ index arithmetic
 SLast(s) == s[Len(s)]
 SFront(s) == SubSeq(s, 1, Len(s) - 1)
@@ -123,6 +164,7 @@ RECURSIVE Unflat(_, _)
 Unflat(k, sh) == IF Len(sh) = 0 THEN <<>> ELSE Append(Unflat(k \div SLast(sh), SFront(sh)), k % SLast(sh))
 InShape(idx, sh) == \A i \in 1..Len(sh) : idx[i] >= 0 /\ idx[i] < sh[i]
 At(a, idx) == IF InShape(idx, a.sh) THEN a.v[Flat(idx, a.sh) + 1] ELSE DBad
+AtB(a, idx, bad) == IF InShape(idx, a.sh) THEN a.v[Flat(idx, a.sh) + 1] ELSE bad     \* explicit fill for out-of-range (element kind of the node)
 MkArr(sh, F(_)) == [sh |-> sh, v |-> [k \in 1..Prod(sh) |-> F(Unflat(k - 1, sh))]]
 Map1(a, F(_)) == [sh |-> a.sh, v |-> [k \in 1..Len(a.v) |-> F(a.v[k])]]
 Map2(a, b, F(_, _)) == [sh |-> a.sh, v |-> [k \in 1..Len(a.v) |-> F(a.v[k], b.v[k])]]
@@ -140,48 +182,59 @@ ATranspose(a, axes) == MkArr([i \in 1..Len(axes) |-> a.sh[axes[i] + 1]],
                              LAMBDA idx : At(a, [j \in 1..Len(axes) |-> idx[CHOOSE i \in 1..Len(axes) : axes[i] + 1 = j]]))
 AReduceLast(a, F(_, _), z) ==
     MkArr(SFront(a.sh), LAMBDA idx : FoldSeq(F, z, [m \in 1..SLast(a.sh) |-> At(a, Append(idx, m - 1))], 1))
-ATake(a, ind) == LET na == Len(a.sh) IN
-    MkArr(SFront(a.sh) \o ind.sh, LAMBDA idx : At(a, Append(Pre(idx, na - 1), IdxVal(At(ind, Post(idx, na - 1))))))
+ATakeB(a, ind, bad) == LET na == Len(a.sh) IN
+    MkArr(SFront(a.sh) \o ind.sh, LAMBDA idx : AtB(a, Append(Pre(idx, na - 1), IdxVal(At(ind, Post(idx, na - 1)))), bad))
+ATake(a, ind) == ATakeB(a, ind, DBad)
 ATakeDiag(a) == MkArr(SFront(a.sh), LAMBDA idx : At(a, Append(idx, SLast(idx))))
-ADiagonalize(a) == MkArr(Append(a.sh, SLast(a.sh)),
-                         LAMBDA idx : IF idx[Len(idx)] = idx[Len(idx) - 1] THEN At(a, SFront(idx)) ELSE DZero)
+ADiagonalizeZ(a, zero) == MkArr(Append(a.sh, SLast(a.sh)),
+                         LAMBDA idx : IF idx[Len(idx)] = idx[Len(idx) - 1] THEN At(a, SFront(idx)) ELSE zero)
+ADiagonalize(a) == ADiagonalizeZ(a, DZero)
 \* scatter-ADD of f (shape pre ++ dofmap.sh) into pre ++ <<length>>
-AInflateG(f, dm, length, Plus(_, _)) == LET np == Len(f.sh) - Len(dm.sh) IN
+AInflateX(f, dm, length, Plus(_, _), zero, bad) == LET np == Len(f.sh) - Len(dm.sh) IN
     IF \E k \in 1..Len(dm.v) : IdxVal(dm.v[k]) < 0 \/ IdxVal(dm.v[k]) >= length
-    THEN MkArr(Append(Pre(f.sh, np), length), LAMBDA idx : DBad)
+    THEN MkArr(Append(Pre(f.sh, np), length), LAMBDA idx : bad)
     ELSE MkArr(Append(Pre(f.sh, np), length),
-               LAMBDA idx : FoldSeq(Plus, DZero,
+               LAMBDA idx : FoldSeq(Plus, zero,
                     [k \in 1..Len(dm.v) |-> IF IdxVal(dm.v[k]) = SLast(idx)
-                                            THEN At(f, Pre(idx, np) \o Unflat(k - 1, dm.sh)) ELSE DZero], 1))
+                                            THEN At(f, Pre(idx, np) \o Unflat(k - 1, dm.sh)) ELSE zero], 1))
+AInflateG(f, dm, length, Plus(_, _)) == AInflateX(f, dm, length, Plus, DZero, DBad)
 \* numeric: scatter-add; boolean: numpy.add.at on bool arrays is a logical or
 AInflate(f, dm, length) == AInflateG(f, dm, length, DAdd)
 AInflateBool(f, dm, length) == AInflateG(f, dm, length, DOr)
+AInflateCx(f, dm, length) == AInflateX(f, dm, length, ZAdd, ZZero, ZBad)
 AReshape(a, sh) == [sh |-> sh, v |-> a.v]
-AChoose(index, choices) == MkArr(index.sh, LAMBDA idx : At(choices, Append(idx, IdxVal(At(index, idx)))))
-ADet(a) == LET n == SLast(a.sh) IN
+AChooseB(index, choices, bad) == MkArr(index.sh, LAMBDA idx : AtB(choices, Append(idx, IdxVal(At(index, idx))), bad))
+AChoose(index, choices) == AChooseB(index, choices, DBad)
+\* determinant / inverse for n <= 2 over a field given by its operations (dual numbers or complex scalars)
+ADetF(a, Mul(_, _), Sub(_, _), one, bad) == LET n == SLast(a.sh) IN
     MkArr(SubSeq(a.sh, 1, Len(a.sh) - 2),
-          LAMBDA idx : IF n = 0 THEN DOne
+          LAMBDA idx : IF n = 0 THEN one
                        ELSE IF n = 1 THEN At(a, idx \o <<0, 0>>)
-                       ELSE IF n = 2 THEN DSub(DMul(At(a, idx \o <<0, 0>>), At(a, idx \o <<1, 1>>)),
-                                               DMul(At(a, idx \o <<0, 1>>), At(a, idx \o <<1, 0>>)))
-                       ELSE DBad)
-AInv(a) == LET n == SLast(a.sh)
-               det == ADet(a)
-           IN MkArr(a.sh, LAMBDA idx :
+                       ELSE IF n = 2 THEN Sub(Mul(At(a, idx \o <<0, 0>>), At(a, idx \o <<1, 1>>)),
+                                              Mul(At(a, idx \o <<0, 1>>), At(a, idx \o <<1, 0>>)))
+                       ELSE bad)
+AInvF(a, det, Mul(_, _), Neg(_), Inv(_), bad) == LET n == SLast(a.sh) IN
+    MkArr(a.sh, LAMBDA idx :
                 LET pre == SubSeq(idx, 1, Len(idx) - 2)
                     i == idx[Len(idx) - 1]
                     j == idx[Len(idx)]
                     dd == At(det, pre)
-                IN IF n = 1 THEN DInv(At(a, pre \o <<0, 0>>))
+                IN IF n = 1 THEN Inv(At(a, pre \o <<0, 0>>))
                    ELSE IF n = 2 THEN
-                        (IF i = j THEN DMul(At(a, pre \o <<1 - i, 1 - j>>), DInv(dd))
-                         ELSE DNeg(DMul(At(a, pre \o <<i, j>>), DInv(dd))))
-                   ELSE DBad)
+                        (IF i = j THEN Mul(At(a, pre \o <<1 - i, 1 - j>>), Inv(dd))
+                         ELSE Neg(Mul(At(a, pre \o <<i, j>>), Inv(dd))))
+                   ELSE bad)
+ADet(a) == ADetF(a, DMul, DSub, DOne, DBad)
+AInv(a) == AInvF(a, ADet(a), DMul, DNeg, DInv, DBad)
+ADetCx(a) == ADetF(a, ZMul, ZSub, ZOne, ZBad)
+AInvCx(a) == AInvF(a, ADetCx(a), ZMul, ZNeg, ZInv, ZBad)
 ARange(n) == [sh |-> <<n>>, v |-> [k \in 1..n |-> DInt(k - 1)]]
 AFull(sh, x) == [sh |-> sh, v |-> [k \in 1..Prod(sh) |-> x]]
 AScalar(x) == [sh |-> <<>>, v |-> <<x>>]
 \* constants: p = <<n1, d1, n2, d2, ...>>
 AConst(sh, p) == [sh |-> sh, v |-> [k \in 1..Prod(sh) |-> DOf(Norm(p[2 * k - 1], p[2 * k]))]]
+\* complex constants: p = <<re n1, re d1, im n1, im d1, re n2, ...>>
+AConstCx(sh, p) == [sh |-> sh, v |-> [k \in 1..Prod(sh) |-> ZMk(DOf(Norm(p[4 * k - 3], p[4 * k - 2])), DOf(Norm(p[4 * k - 1], p[4 * k])))]]
 ARavelIndex(ia, ib, nb) == MkArr(ia.sh \o ib.sh,
     LAMBDA idx : DAdd(DMul(At(ia, Pre(idx, Len(ia.sh))), DInt(nb)), At(ib, Post(idx, Len(ia.sh)))))
 ANormDim(length, index) == Map2(length, index,
@@ -196,6 +249,147 @@ APolyval1(c, x) == LET nc == SLast(c.sh) IN
         LET xi == At(x, Append(Pre(idx, Len(x.sh) - 1), 0))
             ci == Post(idx, Len(x.sh) - 1)
         IN FoldSeq(LAMBDA acc, cf : DAdd(DMul(acc, xi), cf), DZero, [m \in 1..nc |-> At(c, Append(ci, m - 1))], 1))
+
+\* ---- Einsum(args, args_idx, out_idx): numpy.einsum with integer axis labels.  Result element at output labels o:
+\* the sum over all values of the labels that do not occur in out_idx of the product of the operand elements at their
+\* labels (a label repeated within one operand addresses its diagonal).
+\* Node encoding: p = <<Len(out), out..., rank1, idx1..., rank2, idx2..., ...>>
+RECURSIVE EsDecode(_, _)
+EsDecode(p, pos) == IF pos > Len(p) THEN <<>> ELSE <<SubSeq(p, pos + 1, pos + p[pos])>> \o EsDecode(p, pos + p[pos] + 1)
+RECURSIVE EsLabSeq(_)
+EsLabSeq(S) == IF S = {} THEN <<>> ELSE LET m == CHOOSE x \in S : \A y \in S : x <= y IN <<m>> \o EsLabSeq(S \ {m})
+EsPos(q, x) == CHOOSE i \in 1..Len(q) : q[i] = x
+EsIn(q, x) == \E i \in 1..Len(q) : q[i] = x
+AEinsumG(args, idx, out, Plus(_, _), Times(_, _), zero, one) ==
+    LET labs == UNION {{idx[i][j] : j \in 1..Len(idx[i])} : i \in 1..Len(idx)}
+        LenOf(l) == LET i == CHOOSE i \in 1..Len(idx) : EsIn(idx[i], l) IN args[i].sh[EsPos(idx[i], l)]
+        summed == EsLabSeq({l \in labs : ~EsIn(out, l)})
+        lsum == [m \in 1..Len(summed) |-> LenOf(summed[m])]
+    IN MkArr([m \in 1..Len(out) |-> LenOf(out[m])], LAMBDA oidx :
+          FoldSeq(Plus, zero, [m \in 1..Prod(lsum) |->
+              LET sidx == Unflat(m - 1, lsum)
+                  val(l) == IF EsIn(out, l) THEN oidx[EsPos(out, l)] ELSE sidx[EsPos(summed, l)]
+              IN FoldSeq(Times, one, [i \in 1..Len(args) |-> At(args[i], [j \in 1..Len(idx[i]) |-> val(idx[i][j])])], 1)], 1))
+
+\* ---- polynomials in nv variables (nutils_poly).  A polynomial of degree p is the coefficient vector over the
+\* monomials x^k, |k| <= p, in "reverse lexicographic order" (Polyval docstring): the power of the LAST variable is the
+\* most significant and descends; e.g. nv = 2, p = 2: x1^2, x0 x1, x1, x0^2, x0, 1.  (Order confirmed by evaluating unit
+\* coefficient vectors with the real nutils_poly.)
+RECURSIVE PolyPowers(_, _), PolyPowersFrom(_, _, _)
+PolyPowersFrom(nv, p, j) == IF j < 0 THEN <<>>
+                            ELSE LET sub == PolyPowers(nv - 1, p - j)
+                                 IN [m \in 1..Len(sub) |-> Append(sub[m], j)] \o PolyPowersFrom(nv, p, j - 1)
+PolyPowers(nv, p) == IF nv = 0 THEN << <<>> >> ELSE PolyPowersFrom(nv, p, p)
+\* number of coefficients = binomial(p + nv, nv) = Len(PolyPowers(nv, p)) (law checked in ArraySemLaws); nv <= 3
+PolyNC(nv, p) == IF nv = 0 THEN 1 ELSE IF nv = 1 THEN p + 1 ELSE IF nv = 2 THEN ((p + 1) * (p + 2)) \div 2
+                 ELSE ((p + 1) * (p + 2) * (p + 3)) \div 6
+PolyMaxDeg == 9
+\* degree of a polynomial in nv variables with nc coefficients; -1 if no degree has that many coefficients
+PolyDeg(nv, nc) == IF \E p \in 0..PolyMaxDeg : PolyNC(nv, p) = nc THEN CHOOSE p \in 0..PolyMaxDeg : PolyNC(nv, p) = nc ELSE -1
+PolyIndex(pows, q) == CHOOSE k \in 1..Len(pows) : pows[k] = q
+RECURSIVE DPowNat(_, _)
+DPowNat(x, k) == IF DIsBad(x) THEN DBad ELSE IF k = 0 THEN DOne ELSE DMul(x, DPowNat(x, k - 1))
+PolyRowBad(c, pre) == \E k \in 0..(SLast(c.sh) - 1) : DIsBad(At(c, Append(pre, k)))     \* undefined is absorbing per coefficient row
+\* Polyval(coeffs (.., nc), points (.., nv)) -> points.sh[:-1] ++ coeffs.sh[:-1]:  sum_k c_k prod_i x_i^(k_i)
+APolyvalN(c, x) ==
+    LET nv == SLast(x.sh)
+        deg == PolyDeg(nv, SLast(c.sh))
+        pows == PolyPowers(nv, deg)
+        npx == Len(x.sh) - 1
+    IN MkArr(SFront(x.sh) \o SFront(c.sh), LAMBDA idx :
+          IF deg < 0 THEN DBad
+          ELSE FoldSeq(DAdd, DZero,
+                 [k \in 1..Len(pows) |->
+                    FoldSeq(DMul, At(c, Append(Post(idx, npx), k - 1)),
+                            [i \in 1..nv |-> DPowNat(At(x, Append(Pre(idx, npx), i - 1)), pows[k][i])], 1)], 1))
+\* PolyMul(left (.., ncl), right (.., ncr), vars): coefficients of the product; vars[v] in {0 = the variable occurs in the
+\* left factor only, 1 = right only, 2 = both}; the factors' own variables are numbered in the order of vars
+PolyVarPos(vars, v, excl) == Cardinality({u \in 1..v : vars[u] # excl})
+APolyMul(cl, cr, vars) ==
+    LET nvl == Cardinality({v \in 1..Len(vars) : vars[v] # 1})
+        nvr == Cardinality({v \in 1..Len(vars) : vars[v] # 0})
+        pl == PolyDeg(nvl, SLast(cl.sh))
+        pr == PolyDeg(nvr, SLast(cr.sh))
+        powl == PolyPowers(nvl, pl)
+        powr == PolyPowers(nvr, pr)
+        powo == PolyPowers(Len(vars), pl + pr)
+        Comb(a, b) == [v \in 1..Len(vars) |-> (IF vars[v] # 1 THEN a[PolyVarPos(vars, v, 1)] ELSE 0) + (IF vars[v] # 0 THEN b[PolyVarPos(vars, v, 0)] ELSE 0)]
+    IN IF pl < 0 \/ pr < 0 THEN MkArr(Append(SFront(cl.sh), 0), LAMBDA idx : DBad)
+       ELSE MkArr(Append(SFront(cl.sh), Len(powo)), LAMBDA idx :
+              LET q == powo[SLast(idx) + 1]
+                  pre == SFront(idx)
+              IN IF PolyRowBad(cl, pre) \/ PolyRowBad(cr, pre) THEN DBad ELSE
+                 FoldSeq(DAdd, DZero,
+                    [m \in 1..(Len(powl) * Len(powr)) |->
+                        LET a == ((m - 1) \div Len(powr)) + 1
+                            b == ((m - 1) % Len(powr)) + 1
+                        IN IF Comb(powl[a], powr[b]) = q THEN DMul(At(cl, Append(pre, a - 1)), At(cr, Append(pre, b - 1))) ELSE DZero], 1))
+\* PolyGrad(coeffs (.., nc), nv) -> (.., nv, nc'): coefficients (degree max(0, p - 1)) of the partial derivatives
+APolyGrad(c, nv) ==
+    LET p == PolyDeg(nv, SLast(c.sh))
+        pg == IF p > 0 THEN p - 1 ELSE 0
+        pows == PolyPowers(nv, p)
+        powg == PolyPowers(nv, pg)
+    IN IF p < 0 THEN MkArr(SFront(c.sh) \o <<nv, 0>>, LAMBDA idx : DBad)
+       ELSE MkArr(SFront(c.sh) \o <<nv, Len(powg)>>, LAMBDA idx :
+              LET np == Len(c.sh) - 1
+                  v == idx[np + 1] + 1
+                  q == powg[idx[np + 2] + 1]
+                  qq == [i \in 1..nv |-> IF i = v THEN q[i] + 1 ELSE q[i]]
+              IN IF PolyRowBad(c, Pre(idx, np)) THEN DBad ELSE IF p = 0 THEN DZero ELSE DMul(DInt(q[v] + 1), At(c, Append(Pre(idx, np), PolyIndex(pows, qq) - 1))))
+APolyDegree(nc, nv) == Map1(nc, LAMBDA x : IF DIsBad(x) \/ IdxVal(x) < 0 \/ PolyDeg(nv, IdxVal(x)) < 0 THEN DBad ELSE DInt(PolyDeg(nv, IdxVal(x))))
+APolyNCoeffs(nv, deg) == Map1(deg, LAMBDA x : IF DIsBad(x) \/ IdxVal(x) < 0 \/ IdxVal(x) > PolyMaxDeg THEN DBad ELSE DInt(PolyNC(nv, IdxVal(x))))
+\* Legendre(x, degree) -> x.sh ++ <<degree + 1>>: P_0 = 1, P_1 = x, i P_i = (2 i - 1) x P_(i-1) - (i - 1) P_(i-2)
+RECURSIVE LegendreP(_, _)
+LegendreP(x, i) == IF i = 0 THEN (IF DIsBad(x) THEN DBad ELSE DOne) ELSE IF i = 1 THEN x
+                   ELSE DMul(DOf(<<1, i>>), DSub(DMul(DInt(2 * i - 1), DMul(x, LegendreP(x, i - 1))), DMul(DInt(i - 1), LegendreP(x, i - 2))))
+ALegendre(x, degree) == MkArr(Append(x.sh, degree + 1), LAMBDA idx : LegendreP(At(x, SFront(idx)), SLast(idx)))
+
+\* ---- integer / search operations (numpy meaning)
+\* all elements defined and non-decreasing (1-d)
+ASorted(a) == /\ \A k \in 1..Len(a.v) : ~DIsBad(a.v[k])
+              /\ \A k \in 1..(Len(a.v) - 1) : ~RLt(a.v[k + 1][1], a.v[k][1])
+\* numpy.searchsorted(arr, arg, side): arr 1-d sorted (otherwise the result of the binary search is unspecified: undefined);
+\* side 0 = left: number of elements < v (first position where v can be inserted), 1 = right: number of elements <= v
+ASearchSorted(arg, arr, side) ==
+    Map1(arg, LAMBDA x : IF DIsBad(x) \/ ~ASorted(arr) THEN DBad
+                         ELSE <<RInt(Cardinality({k \in 1..Len(arr.v) : IF side = 0 THEN RLt(arr.v[k][1], x[1]) ELSE ~RLt(x[1], arr.v[k][1])})),
+                                IF x[2] = RZero /\ (\A k \in 1..Len(arr.v) : arr.v[k][2] = RZero) THEN RZero ELSE Bad>>)
+\* numpy.argsort(a, -1, kind='stable'): position of the k-th smallest element of each row, ties in index order
+AArgSort(a) == LET n == SLast(a.sh) IN
+    MkArr(a.sh, LAMBDA idx :
+        LET pre == SFront(idx)
+            E(j) == At(a, Append(pre, j))
+            rank(j) == Cardinality({i \in 0..(n - 1) : RLt(E(i)[1], E(j)[1]) \/ (E(i)[1] = E(j)[1] /\ i < j)})
+        IN IF \E j \in 0..(n - 1) : DIsBad(E(j)) THEN DBad ELSE DInt(CHOOSE j \in 0..(n - 1) : rank(j) = SLast(idx)))
+\* UniqueMask(sorted 1-d): first element, and every element that differs from its predecessor
+AUniqueMask(a) == MkArr(a.sh, LAMBDA idx : LET k == idx[1] + 1 IN
+                    IF DIsBad(a.v[k]) \/ (k > 1 /\ DIsBad(a.v[k - 1])) THEN DBad
+                    ELSE IF k = 1 \/ a.v[k][1] # a.v[k - 1][1] THEN DOne ELSE DZero)
+\* UniqueInverse(mask, sorter): inverse[sorter[k]] = (number of set mask entries among the first k + 1) - 1; sorter must be
+\* a permutation (otherwise entries of numpy.empty_like would be exposed: undefined)
+AIsPerm(a) == LET n == Len(a.v) IN \A j \in 0..(n - 1) : Cardinality({k \in 1..n : IdxVal(a.v[k]) = j}) = 1
+AUniqueInverse(mask, sorter) ==
+    MkArr(sorter.sh, LAMBDA idx :
+        IF ~AIsPerm(sorter) \/ \E k \in 1..Len(mask.v) : DIsBad(mask.v[k]) THEN DBad
+        ELSE LET k == CHOOSE k \in 1..Len(sorter.v) : IdxVal(sorter.v[k]) = idx[1]
+             IN DInt(Cardinality({m \in 1..k : mask.v[m][1] # RZero}) - 1))
+\* _SizesToOffsets(sizes 1-d, non-negative): numpy.cumsum([0, *sizes])
+ASizesToOffsets(sz) == MkArr(<<Len(sz.v) + 1>>, LAMBDA idx : FoldSeq(DAdd, DZero, SubSeq(sz.v, 1, idx[1]), 1))
+\* CompressIndices(indices 1-d non-decreasing in [0, length), length): c[i] = number of indices < i, i = 0..length
+\* (numeric.compress_indices docstring: indices[c[i]:c[i+1]] == i; raises for unsorted / out of bounds: undefined)
+ACompressIndices(ind, length) ==
+    MkArr(<<length + 1>>, LAMBDA idx :
+        IF ~ASorted(ind) \/ \E k \in 1..Len(ind.v) : IdxVal(ind.v[k]) < 0 \/ IdxVal(ind.v[k]) >= length THEN DBad
+        ELSE DInt(Cardinality({k \in 1..Len(ind.v) : IdxVal(ind.v[k]) < idx[1]})))
+\* Find(where 1-d bool): positions of the true entries, ascending (data dependent length)
+AFind(w) == LET pos == {k \in 1..Len(w.v) : w.v[k][1] # RZero}
+                seq == EsLabSeq(pos)
+            IN [sh |-> <<Cardinality(pos)>>, v |-> [m \in 1..Len(seq) |-> IF \E k \in 1..Len(w.v) : DIsBad(w.v[k]) THEN DBad ELSE DInt(seq[m] - 1)]]
+\* value of a scalar integer node used as an axis length (loop dependent lengths); undefined -> 0
+LenVal(a) == IF IdxVal(a.v[1]) < 0 THEN 0 ELSE IdxVal(a.v[1])
+ARavel(a) == [sh |-> Append(SubSeq(a.sh, 1, Len(a.sh) - 2), a.sh[Len(a.sh) - 1] * a.sh[Len(a.sh)]), v |-> a.v]
+AUnravel(a, s1, s2) == [sh |-> SFront(a.sh) \o <<s1, s2>>, v |-> a.v]
 
 IsBoolNode(n) == n.dt = "b"
 \* does node k depend on an argument (i.e. can it vary with the point of differentiation)?
@@ -213,57 +407,101 @@ Ev(N, k, env, lenv) ==
   LET n == N[k]
       op == n.op
       A(i) == Ev(N, n.d[i], env, lenv)
+      cx == n.dt = "c"                                  \* complex result
+      cx1 == N[n.d[1]].dt = "c"                         \* complex (first) operand
   IN CASE op = "Arg" -> env[n.p[1]]
-       [] op = "Const" -> AConst(n.sh, n.p)
-       [] op = "Zeros" -> AFull(n.sh, DZero)
+       [] op = "Const" -> IF cx THEN AConstCx(n.sh, n.p) ELSE AConst(n.sh, n.p)
+       [] op = "Zeros" -> AFull(n.sh, IF cx THEN ZZero ELSE DZero)
        [] op = "Range" -> ARange(n.p[1])
+       [] op = "RangeN" -> ARange(LenVal(A(1)))                           \* Range(length node)
+       [] op = "InsertAxisN" -> AInsertAxis(A(1), LenVal(A(2)))           \* InsertAxis(func, length node)
        [] op = "LoopIndex" -> AScalar(DInt(lenv[n.p[1]]))
        [] op = "InsertAxis" -> AInsertAxis(A(1), n.p[1])
        [] op = "Transpose" -> ATranspose(A(1), n.p)
-       [] op = "Sum" -> IF N[n.d[1]].dt = "b" THEN AReduceLast(A(1), DOr, DZero) ELSE AReduceLast(A(1), DAdd, DZero)
-       [] op = "Product" -> IF N[n.d[1]].dt = "b" THEN AReduceLast(A(1), DAnd, DOne) ELSE AReduceLast(A(1), DMul, DOne)
-       [] op = "Multiply" -> IF n.dt = "b" THEN Map2(A(1), A(2), DAnd) ELSE Map2(A(1), A(2), DMul)
-       [] op = "Add" -> IF n.dt = "b" THEN Map2(A(1), A(2), DOr) ELSE Map2(A(1), A(2), DAdd)
-       [] op = "Power" -> IF N[n.d[2]].dt = "f" /\ DepArg(N, n.d[2]) THEN Map2(A(1), A(2), DPowVar) ELSE Map2(A(1), A(2), DPow)
-       [] op = "Negative" -> Map1(A(1), DNeg)
-       [] op = "Reciprocal" -> Map1(A(1), DInv)
-       [] op = "Absolute" -> Map1(A(1), DAbs)
+       [] op = "Sum" -> IF N[n.d[1]].dt = "b" THEN AReduceLast(A(1), DOr, DZero)
+                        ELSE IF cx THEN AReduceLast(A(1), ZAdd, ZZero) ELSE AReduceLast(A(1), DAdd, DZero)
+       [] op = "Product" -> IF N[n.d[1]].dt = "b" THEN AReduceLast(A(1), DAnd, DOne)
+                            ELSE IF cx THEN AReduceLast(A(1), ZMul, ZOne) ELSE AReduceLast(A(1), DMul, DOne)
+       [] op = "Multiply" -> IF n.dt = "b" THEN Map2(A(1), A(2), DAnd) ELSE IF cx THEN Map2(A(1), A(2), ZMul) ELSE Map2(A(1), A(2), DMul)
+       [] op = "Add" -> IF n.dt = "b" THEN Map2(A(1), A(2), DOr) ELSE IF cx THEN Map2(A(1), A(2), ZAdd) ELSE Map2(A(1), A(2), DAdd)
+       [] op = "Power" -> IF cx THEN (IF DepArg(N, n.d[2]) THEN Map2(A(1), A(2), ZPowVar) ELSE Map2(A(1), A(2), ZPow))
+                          ELSE IF N[n.d[2]].dt = "f" /\ DepArg(N, n.d[2]) THEN Map2(A(1), A(2), DPowVar) ELSE Map2(A(1), A(2), DPow)
+       [] op = "Negative" -> IF cx THEN Map1(A(1), ZNeg) ELSE Map1(A(1), DNeg)
+       [] op = "Reciprocal" -> IF cx THEN Map1(A(1), ZInv) ELSE Map1(A(1), DInv)
+       [] op = "Absolute" -> IF cx1 THEN Map1(A(1), ZAbs) ELSE Map1(A(1), DAbs)
+       [] op = "FloatToComplex" -> Map1(A(1), ZOfD)
+       [] op = "Real" -> Map1(A(1), ZRe)
+       [] op = "Imag" -> Map1(A(1), ZIm)
+       [] op = "Conjugate" -> Map1(A(1), ZConj)
        [] op = "Sign" -> Map1(A(1), DSign)
        [] op = "FloorDivide" -> Map2(A(1), A(2), DFloorDiv)
        [] op = "Mod" -> Map2(A(1), A(2), DMod)
        [] op = "Minimum" -> Map2(A(1), A(2), DMin)
        [] op = "Maximum" -> Map2(A(1), A(2), DMax)
-       [] op = "Equal" -> Map2(A(1), A(2), DEq)
+       [] op = "Equal" -> IF cx1 THEN Map2(A(1), A(2), ZEq) ELSE Map2(A(1), A(2), DEq)
        [] op = "Less" -> Map2(A(1), A(2), DLess)
        [] op = "Greater" -> Map2(A(1), A(2), DGreater)
        [] op = "LogicalNot" -> Map1(A(1), DNot)
        [] op \in {"BoolToInt", "IntToFloat", "Guard", "Identity"} -> A(1)
-       [] op = "Take" -> ATake(A(1), A(2))
+       [] op = "Take" -> ATakeB(A(1), A(2), IF cx THEN ZBad ELSE DBad)
        [] op = "TakeDiag" -> ATakeDiag(A(1))
-       [] op = "Diagonalize" -> ADiagonalize(A(1))
-       [] op = "Inflate" -> IF n.dt = "b" THEN AInflateBool(A(1), A(2), n.p[1]) ELSE AInflate(A(1), A(2), n.p[1])
-       [] op = "Ravel" -> AReshape(A(1), n.sh)
-       [] op = "Unravel" -> AReshape(A(1), n.sh)
+       [] op = "Diagonalize" -> ADiagonalizeZ(A(1), IF cx THEN ZZero ELSE DZero)
+       [] op = "Inflate" -> IF n.dt = "b" THEN AInflateBool(A(1), A(2), n.p[1])
+                            ELSE IF cx THEN AInflateCx(A(1), A(2), n.p[1]) ELSE AInflate(A(1), A(2), n.p[1])
+       [] op = "Ravel" -> ARavel(A(1))
+       [] op = "Unravel" -> AUnravel(A(1), n.p[1], n.p[2])
        [] op = "RavelIndex" -> ARavelIndex(A(1), A(2), n.p[2])
-       [] op = "Choose" -> AChoose(A(1), A(2))
+       [] op = "Choose" -> AChooseB(A(1), A(2), IF cx THEN ZBad ELSE DBad)
        [] op = "InRange" -> AInRange(A(1), n.p[1])
        [] op = "NormDim" -> ANormDim(A(1), A(2))
-       [] op = "Determinant" -> ADet(A(1))
-       [] op = "Inverse" -> AInv(A(1))
-       [] op = "Polyval" -> APolyval1(A(1), A(2))
+       [] op = "Determinant" -> IF cx THEN ADetCx(A(1)) ELSE ADet(A(1))
+       [] op = "Inverse" -> IF cx THEN AInvCx(A(1)) ELSE AInv(A(1))
+       [] op = "Polyval" -> APolyvalN(A(1), A(2))
+       [] op = "PolyMul" -> APolyMul(A(1), A(2), n.p)
+       [] op = "PolyGrad" -> APolyGrad(A(1), n.p[1])
+       [] op = "PolyDegree" -> APolyDegree(A(1), n.p[1])
+       [] op = "PolyNCoeffs" -> APolyNCoeffs(n.p[1], A(1))
+       [] op = "Legendre" -> ALegendre(A(1), n.p[1])
+       [] op = "SearchSorted" -> ASearchSorted(A(1), IF Len(n.d) = 3 THEN ATake(A(2), A(3)) ELSE A(2), n.p[1])
+       [] op = "ArgSort" -> AArgSort(A(1))
+       [] op = "UniqueMask" -> AUniqueMask(A(1))
+       [] op = "UniqueInverse" -> AUniqueInverse(A(1), A(2))
+       [] op = "SizesToOffsets" -> ASizesToOffsets(A(1))
+       [] op = "CompressIndices" -> ACompressIndices(A(1), LenVal(A(2)))
+       [] op = "Find" -> AFind(A(1))
+       [] op = "Einsum" ->
+            LET dec == EsDecode(n.p, 1)
+                args == [i \in 1..Len(n.d) |-> A(i)]
+                idx == [i \in 1..Len(n.d) |-> dec[i + 1]]
+            IN IF cx THEN AEinsumG(args, idx, dec[1], ZAdd, ZMul, ZZero, ZOne) ELSE AEinsumG(args, idx, dec[1], DAdd, DMul, DZero, DOne)
        [] op = "LoopSum" ->
             LET parts == [i \in 1..n.p[2] |-> Ev(N, n.d[1], env, [lenv EXCEPT ![n.p[1]] = i - 1])]
-            IN [sh |-> n.sh, v |-> [e \in 1..Prod(n.sh) |-> FoldSeq(DAdd, DZero, [i \in 1..n.p[2] |-> parts[i].v[e]], 1)]]
+                psh == IF n.p[2] > 0 THEN parts[1].sh ELSE n.sh
+            IN [sh |-> psh, v |-> [e \in 1..Prod(psh) |-> IF cx THEN FoldSeq(ZAdd, ZZero, [i \in 1..n.p[2] |-> parts[i].v[e]], 1)
+                                                             ELSE FoldSeq(DAdd, DZero, [i \in 1..n.p[2] |-> parts[i].v[e]], 1)]]
        [] op = "LoopConcat" ->
-            \* p = <<loop id, loop length, chunk size>>; chunks concatenated along the last axis
+            \* p = <<loop id, loop length, chunk size (0: loop dependent)>>; the chunks (iteration i contributes its whole
+            \* last axis, whose length may depend on i) are concatenated along the last axis in loop order
             LET parts == [i \in 1..n.p[2] |-> Ev(N, n.d[1], env, [lenv EXCEPT ![n.p[1]] = i - 1])]
-                c == n.p[3]
-            IN MkArr(n.sh, LAMBDA idx : At(parts[(SLast(idx) \div c) + 1], Append(SFront(idx), SLast(idx) % c)))
+                Off(i) == FoldSeq(LAMBDA acc, q : acc + SLast(q.sh), 0, SubSeq(parts, 1, i - 1), 1)     \* start of chunk i
+                csh == IF n.p[2] > 0 THEN Append(SFront(parts[1].sh), Off(n.p[2] + 1)) ELSE n.sh
+            IN MkArr(csh, LAMBDA idx :
+                  LET j == SLast(idx)
+                      i == CHOOSE i \in 1..n.p[2] : Off(i) <= j /\ j < Off(i + 1)
+                  IN At(parts[i], Append(SFront(idx), j - Off(i))))
        [] OTHER -> Assert(FALSE, <<"ArraySem: unknown op", op>>)
 
 \* ------------------------------------------------------------------ environments
 \* argument array from integer data with tangent seed on flat position seed (0 = none)
-ArgArr(sh, ints, seed) == [sh |-> sh, v |-> [k \in 1..Prod(sh) |-> <<RInt(ints[k]), IF k = seed THEN ROne ELSE RZero>>]]
+\* A complex argument is recognised by its data: 2 * size integers, real parts first, then imaginary parts (the seed is
+\* a unit tangent on the REAL part of one element: d/d re, which for a holomorphic program is the complex derivative).
+ArgArr(sh, ints, seed) ==
+    IF Prod(sh) > 0 /\ Len(ints) = 2 * Prod(sh)
+    THEN [sh |-> sh, v |-> [k \in 1..Prod(sh) |-> << <<RInt(ints[k]), IF k = seed THEN ROne ELSE RZero>>, <<RInt(ints[Prod(sh) + k]), RZero>> >>]]
+    ELSE [sh |-> sh, v |-> [k \in 1..Prod(sh) |-> <<RInt(ints[k]), IF k = seed THEN ROne ELSE RZero>>]]
 \* JSON-friendly projection of an array: flat list of <<vn, vd, tn, td>>
 Proj(a) == [sh |-> a.sh, v |-> [k \in 1..Len(a.v) |-> <<a.v[k][1][1], a.v[k][1][2], a.v[k][2][1], a.v[k][2][2]>>]]
+\* complex arrays: <<re vn, re vd, re tn, re td, im vn, im vd, im tn, im td>>
+ProjCx(a) == [sh |-> a.sh, v |-> [k \in 1..Len(a.v) |-> <<a.v[k][1][1][1], a.v[k][1][1][2], a.v[k][1][2][1], a.v[k][1][2][2],
+                                                           a.v[k][2][1][1], a.v[k][2][1][2], a.v[k][2][2][1], a.v[k][2][2][2]>>]]
 =============================================================================
